@@ -1,6 +1,8 @@
 """Canonical text of expressions (alias-substituted access paths)."""
 from __future__ import annotations
 
+import re
+
 from typing import Dict, Optional
 
 from . import cparse as C
@@ -85,6 +87,13 @@ class Canon:
         if isinstance(e, C.Postfix):
             return f"{r(e.e)}{e.op}"
         if isinstance(e, C.Binary):
+            if e.op in ("==", "!="):
+                # symmetric: one canonical operand order (constants on the right, otherwise lexicographic), so `a == b` and `b == a` agree
+                l, rr = self._p(e.l), self._p(e.r)
+                lc, rc = _constant_like(l), _constant_like(rr)
+                if (lc and not rc) or (lc == rc and rr < l):
+                    l, rr = rr, l
+                return f"{l}{e.op}{rr}"
             return f"{self._p(e.l)}{e.op}{self._p(e.r)}"
         if isinstance(e, C.Ternary):
             return f"{self._p(e.c)}?{self._p(e.a)}:{self._p(e.b)}"
@@ -118,6 +127,11 @@ class Canon:
         if isinstance(e, (C.Binary, C.Ternary)):
             return f"({s})"
         return s
+
+
+def _constant_like(s: str) -> bool:
+    """nullptr / true / false / numbers / enumerators and ALL-CAPS constants: conventionally the right operand of == / !=."""
+    return bool(re.fullmatch(r"nullptr|true|false|-?[0-9][\w.']*|[A-Z][A-Z0-9_]+|(?:[A-Za-z_]\w*::)+[A-Za-z_]\w*|'.*'|\".*\"", s))
 
 
 def _simple(s: str) -> bool:
